@@ -17,7 +17,7 @@ from ..driver import hyp_drive
 PROP = "C17"
 RULE = (
     "case = (method in clip/reflect/toroidal, box of 1-4 coordinates from a menu of decimal/offset/tiny/huge boxes or "
-    "random decimal literals, matrix of 1-4 vectors built per coordinate from classes interior / on a face / 1-3 ulps "
+    "random decimal literals (integer-valued boxes also as an integer-dtype bounds array), matrix of 1-4 vectors built per coordinate from classes interior / on a face / 1-3 ulps "
     "inside or outside a face / k ranges below or above (k up to 1e6, float and exactly-rounded rational multiples) / "
     "mirror images / far away); plus a deterministic grid of faces x ulps x multiples x menu boxes enumerated every run. "
     "Non-trivial = some coordinate is on a face, within 3 ulps of one, or an exact multiple of the range away; "
@@ -120,6 +120,8 @@ def check_case(case: dict) -> list[Violation]:
 
     method = case["method"]
     bounds = np.array(case["bounds"], dtype=float)
+    if case.get("int_bounds"):
+        bounds = np.array(case["bounds"]).astype(int)  # bounds given as integers (as the repository's own test config does)
     X = np.array(case["x"], dtype=float).reshape(-1, len(bounds))
     X0 = X.copy()
     Y = apply_bounds(X, bounds, method)
@@ -268,7 +270,10 @@ def cases(draw) -> dict:
             crow.append(c)
         X.append(row)
         C.append(crow)
-    return {"method": method, "bounds": [list(b) for b in bnds], "x": X, "cls": C}
+    case = {"method": method, "bounds": [list(b) for b in bnds], "x": X, "cls": C}
+    if all(float(lo).is_integer() and float(hi).is_integer() and abs(lo) < 2**31 and abs(hi) < 2**31 for lo, hi in bnds) and draw(S_BOOL):
+        case["int_bounds"] = True
+    return case
 
 
 def grid_cases():
@@ -300,6 +305,8 @@ def grid_cases():
             add(2 * lo - (lo + t * R), "mirror")
             add(2 * hi - (lo + t * R), "mirror")
         yield {"method": method, "bounds": [[lo, hi]], "x": [[x] for x in xs], "cls": [[c] for c in cs]}
+        if float(lo).is_integer() and float(hi).is_integer() and abs(lo) < 2**31 and abs(hi) < 2**31:
+            yield {"method": method, "bounds": [[lo, hi]], "x": [[x] for x in xs], "cls": [[c] for c in cs], "int_bounds": True}
 
 
 # ----------------------------------------------------------------------------------------------
